@@ -900,6 +900,13 @@ func (x *Exec) next(fr *Frame, st *State, in *ssa.Next) {
 		vc.assert(implies(okT, and(
 			eq(lt(c0, intLit(128)), lt(r, intLit(128))),
 			implies(lt(c0, intLit(128)), and(eq(w, intLit(1)), eq(r, c0))))))
+		// UTF-8: for a valid string the decoded rune re-encodes to exactly the bytes consumed
+		// (utf8.ValidString is the uninterpreted predicate ghost code can name); an invalid byte
+		// decodes to U+FFFD, width 1
+		vc.declareFun("string_of_rune", []Sort{SInt}, SString)
+		vc.declareFun("uf_unicode!utf8.ValidString_0", []Sort{SString}, SBool)
+		vc.assert(implies(and(okT, app(SBool, "uf_unicode!utf8.ValidString_0", s)),
+			eq(app(SString, "string_of_rune", r), app(SString, "str.substr", s, cur, w))))
 		st.iters[key] = vc.name("pos", ite(okT, add(cur, w), cur))
 		st.written[fmt.Sprintf("i:%d:%p", fr.id, rng)] = true
 		fr.tuples[in] = []Term{okT, cur, r}
